@@ -10,6 +10,9 @@ type Style struct {
 	CoImport string // "co" (default name), "." (dot), or a renamed identifier
 	SeqAlso  bool   // the file already imports seq (as "seq")
 	SeqName  string // ... or under this name: an identifier, "." (dot import) or "_" (blank import)
+	// TypeSwitch: tagged switches are written as TYPE switches over the dynamic type of TV(tag) (same clauses,
+	// same meaning; where Go allows it: no fallthrough, case values 0..9); the mini-Go AST stays a switch
+	TypeSwitch bool
 }
 
 type renderer struct {
@@ -18,6 +21,48 @@ type renderer struct {
 	ref    bool   // reference rendering: Yield -> y.Yield
 	yield  string // text of the yield function
 	retNil string
+	tsw    bool // Style.TypeSwitch
+}
+
+func hasFallthrough(ss []*Stmt) bool {
+	for _, s := range ss {
+		if s == nil {
+			continue
+		}
+		if s.K == Fallthrough {
+			return true
+		}
+		if hasFallthrough(s.Body) {
+			return true
+		}
+		if s.Else != nil && (hasFallthrough(s.Else.Body) || (s.Else.If != nil && hasFallthrough([]*Stmt{s.Else.If}))) {
+			return true
+		}
+		for _, c := range s.Cases {
+			if hasFallthrough(c.Body) {
+				return true
+			}
+		}
+	}
+	return false
+}
+
+// asTypeSwitch: may this tagged switch be written as a type switch?
+func (r *renderer) asTypeSwitch(s *Stmt) bool {
+	if !r.tsw || s.Tag < 0 {
+		return false
+	}
+	for _, c := range s.Cases {
+		for _, k := range c.Ks {
+			if k < 0 || k > 9 {
+				return false
+			}
+		}
+		if hasFallthrough(c.Body) {
+			return false
+		}
+	}
+	return true
 }
 
 func (r *renderer) line(format string, a ...any) {
@@ -131,7 +176,10 @@ func (r *renderer) stmt(s *Stmt) {
 		if s.Init != nil {
 			h += r.simple(s.Init) + "; "
 		}
-		if s.Tag >= 0 {
+		asType := r.asTypeSwitch(s)
+		if asType {
+			h += fmt.Sprintf("TV(%d%s).(type) ", s.Tag, usesArgs(s.Uses))
+		} else if s.Tag >= 0 {
 			h += fmt.Sprintf("T(%d%s) ", s.Tag, usesArgs(s.Uses))
 		}
 		r.line("%s{", h)
@@ -141,7 +189,9 @@ func (r *renderer) stmt(s *Stmt) {
 			} else {
 				var ks []string
 				for _, k := range c.Ks {
-					if s.Tag >= 0 {
+					if asType {
+						ks = append(ks, fmt.Sprintf("T%d", k))
+					} else if s.Tag >= 0 {
 						ks = append(ks, fmt.Sprint(k))
 					} else {
 						ks = append(ks, fmt.Sprintf("C(%d)", k))
@@ -186,7 +236,7 @@ func (r *renderer) stmt(s *Stmt) {
 
 // RenderCo: the source file handed to the compiler
 func RenderCo(pkg, vmPath string, st Style, progs []*Prog) string {
-	r := &renderer{retNil: "return nil"}
+	r := &renderer{retNil: "return nil", tsw: st.TypeSwitch}
 	iter := "co.Iter[int]"
 	switch st.CoImport {
 	case ".":
